@@ -137,6 +137,12 @@ def build(engine):
 
 
 WHAT = {
+    'server_conform': 'BOUNDED (executed, not proved): the local server (SQLite) and the git-backed server (local-only; two clones sharing a bare '
+                      'remote, handles created up-front or lazily) are run on every call sequence within the bounds, from several handles, '
+                      'and every result is checked against the executable version-chain contract of C08: accepted only on top of the latest '
+                      'version (any parent when none exists), a rejection names the latest and changes nothing, an accepted version is '
+                      'returned byte for byte to every handle (also after reopening), unknown parent => NoSuchVersion, a returned snapshot '
+                      'is one that was stored, intact; no faults are injected, so an Err is a deviation too',
     'sqlite_equiv': 'BOUNDED (executed, not proved): the real SqliteStorage (through the real send_wrapper) and the real InMemoryStorage '
                     '(proved against the StorageTxn contract) give the same result for every call of every contract-respecting call '
                     'sequence within the bounds, agree on what is visible after commit / abandon / close+reopen, also on databases '
@@ -162,7 +168,7 @@ def run(h, prop, tier):
     os.makedirs(replays, exist_ok=True)
     # /dev/shm keeps the thousands of scratch databases off the disk
     scratch = '/dev/shm/vf-%s-%d' % (engine, os.getpid()) if os.path.isdir('/dev/shm') else os.path.join(work, 'db')
-    cmd = [binary, '--work', scratch, '--out', replays, '--tier', tier, '--jobs', str(h.get('jobs', 12))]
+    cmd = [binary, '--work', scratch, '--out', replays, '--tier', tier, '--jobs', str(h.get('jobs', 12)), '--seed', os.environ.get('VERIF_SEED', '0') if os.environ.get('VERIF_SEED', '0').isdigit() else '0']
     out['cmd'] = 'python3 vf/main.py dyn-build %s && build/dyn/bin/<tree-hash>/%s --tier %s' % (engine, engine, tier)
     t0 = time.time()
     try:
@@ -190,19 +196,23 @@ def run(h, prop, tier):
     if summary['mismatches'] == 0 and p.returncode == 0:
         out['discharged'] = 1
         return out
-    for i, f in enumerate(summary.get('replays', [])[:1]):
+    for f in summary.get('replays', []):
         try:
             m = json.load(open(f))
         except (OSError, ValueError):
             m = {}
-        out['violations'].append({'engine': engine, 'harness': engine, 'counterexample': m.get('scenario'), 'at': m.get('at'),
-                                  'sqlite': m.get('sqlite'), 'inmemory': m.get('inmemory'), 'scenario': m.get('scenario'),
+        kind = (m.get('scenario') or {}).get('kind', '')
+        out['violations'].append({'engine': engine, 'harness': engine + ('-' + kind if kind and engine != 'sqlite_equiv' else ''),
+                                  'counterexample': m.get('scenario'), 'at': m.get('at'), 'scenario': m.get('scenario'),
+                                  'observed': {k: m.get(k) for k in ('sqlite', 'inmemory', 'got', 'expected') if k in m},
                                   'note': 'failing call sequence found by bounded execution of the real code; re-run: ./check %s --replay <this file>' % prop})
         try:
             os.remove(f)
         except OSError:
             pass
-    for f in summary.get('replays', [])[1:]:
+        if engine == 'sqlite_equiv':
+            break
+    for f in summary.get('replays', []):
         try:
             os.remove(f)
         except OSError:
